@@ -216,6 +216,18 @@ def section_totals(ck, st, L, ZZ, EE, cell, AV):
     for n in ('CS_Total_Kissel', 'CS_Photo_Total', 'CSb_Photo_Total', 'CSb_Total_Kissel'):
         must_fail_shipped(ck, L, n, R[n], call(n))
     st.calls += sum(len(r) for r in res)
+    # the same aggregates called WITHOUT an error slot: a partial sum must not appear when nobody listens for the error either
+    Ln = execlib.Lib(L.config, env={'XV_NOSLOT': '1'})
+    agg = ['CS_Total', 'CS_Total_Kissel', 'CSb_Total', 'CSb_Total_Kissel', 'CS_Photo_Total', 'CSb_Photo_Total']
+    res2 = Ln.multi([(n, ZZ, EE) for n in agg])
+    st.calls += sum(len(r) for r in res2)
+    for n, r2 in zip(agg, res2):
+        bad = np.nonzero(r2.v.view('u8') != R[n].v.view('u8'))[0]
+        for k in bad[:2]:
+            ck.violation('c05:%s:value-without-error-slot-differs' % n,
+                         '%s returns %r without an error slot but %r (%s) with one: a part is undefined, so the aggregate must be the 0 sentinel' % (
+                             n, float(r2.v[k]), float(R[n].v[k]), R[n].msg(k) if R[n].err[k] else 'success'),
+                         dict(call=call(n)(k), config=L.config))
     return R
 
 
